@@ -2,11 +2,14 @@ package c17
 
 import (
 	"fmt"
+	"os"
 	"runtime"
+	"sort"
 	"strconv"
 	"strings"
 	"sync"
 	"sync/atomic"
+	"time"
 
 	"github.com/google/martian/v3/har"
 
@@ -20,14 +23,24 @@ type cop struct {
 	inv, ret int64
 	dup      bool
 	ents     []ent
+	fault    bool  // req / res whose body reader fails (framed request, logging on: the call must fail)
+	failed   bool  // the call returned the message error
+	slow     bool  // the body yields the processor on every read
+	g        *gate // storm step: parked in the body read until the whole step is in flight
 }
 
 func (o *cop) String() string {
 	s := fmt.Sprintf("[%d,%d] %s %s#%d", o.inv, o.ret, o.kind, o.id, o.tag)
 	switch o.kind {
-	case "req":
+	case "req", "res":
+		if o.fault {
+			s += "(bad body)"
+		}
 		if o.dup {
 			s += " -> dup"
+		}
+		if o.failed {
+			s += " -> err"
 		}
 	case "export", "xreset":
 		s += " -> " + showEnts(o.ents)
@@ -47,10 +60,30 @@ func genProgram(r *core.Rand, g, n int, mode string) []*cop {
 			}
 			return "g" + strconv.Itoa(g) + "i" + strconv.Itoa(r.Intn(3))
 		}
+		if mode == "hammer" {
+			// bodiless calls back to back on four shared IDs, export-and-reset heavy: the calls
+			// are short, so what overlaps is the critical sections themselves
+			o.id = "h" + strconv.Itoa(r.Intn(4))
+			switch {
+			case x < 34:
+				o.kind = "req"
+			case x < 62:
+				o.kind = "res"
+			case x < 90:
+				o.kind = "xreset"
+			default:
+				o.kind = "export"
+			}
+			prog = append(prog, o)
+			continue
+		}
 		switch {
 		case x < 36:
 			o.kind, o.id = "req", pick()
-			mine = append(mine, o.id)
+			o.fault, o.slow = r.Chance(1, 8), r.Chance(1, 3)
+			if !o.fault {
+				mine = append(mine, o.id)
+			}
 		case x < 70:
 			o.kind = "res"
 			if len(mine) > 0 && !r.Chance(1, 6) {
@@ -58,6 +91,7 @@ func genProgram(r *core.Rand, g, n int, mode string) []*cop {
 			} else {
 				o.id = pick()
 			}
+			o.fault, o.slow = r.Chance(1, 6), r.Chance(1, 3)
 		case x < 78:
 			o.kind = "export"
 		case x < 97 || mode != "reset":
@@ -70,29 +104,100 @@ func genProgram(r *core.Rand, g, n int, mode string) []*cop {
 	return prog
 }
 
+// stormSteps builds the programs of a duplicate storm: at step k every goroutine makes a call
+// about the SAME id (mostly RecordRequest, also RecordResponse, now and then an export-and-reset
+// or export); the record calls of a step share a gate, so they are all in flight, past everything
+// the implementation does before reading the body, when the first of them goes on.
+func stormSteps(r *core.Rand, G, n int) [][]*cop {
+	progs := make([][]*cop, G)
+	ids := []string{"s0", "s1"}
+	for k := 0; k < n; k++ {
+		id := ids[r.Intn(len(ids))]
+		reqW := r.Pick("90", "60", "35") // request-heavy, mixed, response-heavy step
+		rw, _ := strconv.Atoi(reqW)
+		var gated []*cop
+		for g := 0; g < G; g++ {
+			o := &cop{tag: g*1000 + k, id: id}
+			switch x := r.Intn(100); {
+			case x < rw:
+				o.kind = "req"
+				o.fault = r.Chance(1, 10)
+			case x < 92:
+				o.kind = "res"
+				o.fault = r.Chance(1, 8)
+			case x < 98:
+				o.kind = "xreset"
+			default:
+				o.kind = "export"
+			}
+			if o.kind == "req" || o.kind == "res" {
+				gated = append(gated, o)
+			}
+			progs[g] = append(progs[g], o)
+		}
+		gt := newGate(len(gated), 250*time.Millisecond)
+		for _, o := range gated {
+			o.g = gt
+		}
+	}
+	return progs
+}
+
+func (o *cop) msg() msg {
+	m := msg{fault: 'n'}
+	if o.fault {
+		m.fault = 'r'
+	}
+	// a framed request / a response with a real body is what makes har read (and so lets the
+	// gate or the yields act); plain calls stay bodiless
+	if o.kind == "req" && (o.fault || o.slow || o.g != nil) {
+		m.framed = true
+	}
+	return m
+}
+
 func execOp(l *har.Logger, o *cop, clk *int64) string {
+	var yield func()
+	if o.slow {
+		yield = runtime.Gosched
+	}
 	switch o.kind {
 	case "req":
-		req := mkReq(o.id, o.tag)
+		m := o.msg()
+		b := mkReqMsg(o.id, o.tag, m, o.g, yield)
 		o.inv = atomic.AddInt64(clk, 1)
-		err := l.RecordRequest(o.id, req)
+		err := l.RecordRequest(o.id, b.req)
 		o.ret = atomic.AddInt64(clk, 1)
-		o.dup = err != nil
+		switch classify(err, b, m) {
+		case "err dup":
+			o.dup = true
+		case "err msg":
+			o.failed = true
+		}
 	case "res":
-		res := mkRes(o.tag)
+		m := o.msg()
+		var b built
+		if m.fault == 'n' && o.g == nil && !o.slow {
+			b = mkResMsg(o.tag, m, nil, nil)
+		} else {
+			b = mkResMsg(o.tag, msg{ctype: "text/plain", fault: m.fault}, o.g, yield)
+		}
 		o.inv = atomic.AddInt64(clk, 1)
-		err := l.RecordResponse(o.id, res)
+		err := l.RecordResponse(o.id, b.res)
 		o.ret = atomic.AddInt64(clk, 1)
 		if err != nil {
-			return "RecordResponse: " + err.Error()
+			if !o.fault {
+				return "RecordResponse: " + err.Error()
+			}
+			o.failed = true
 		}
 	case "export":
 		o.inv = atomic.AddInt64(clk, 1)
 		h := l.Export()
 		o.ret = atomic.AddInt64(clk, 1)
-		// Export hands out the live *Entry values: their Response field may be written by a
-		// concurrent RecordResponse, so only the immutable parts (ID, request) are read here.
-		es, bad := readHAR(h, false)
+		// Export hands out copies made under the lock (the `alias` op checks that), so the
+		// Response field of what it returned is stable and is part of the observation.
+		es, bad := readHAR(h, true)
 		if bad != "" {
 			return bad
 		}
@@ -127,6 +232,9 @@ func specApply(st []ent, o *cop) ([]ent, bool) {
 	}
 	switch o.kind {
 	case "req":
+		if o.failed {
+			return st, true // returned the message error: recorded nothing, at any point
+		}
 		if find() >= 0 {
 			return st, o.dup
 		}
@@ -135,6 +243,9 @@ func specApply(st []ent, o *cop) ([]ent, bool) {
 		}
 		return append(append([]ent{}, st...), ent{o.id, o.tag, -1}), true
 	case "res":
+		if o.failed {
+			return st, true
+		}
 		i := find()
 		if i < 0 {
 			return st, true
@@ -147,7 +258,7 @@ func specApply(st []ent, o *cop) ([]ent, bool) {
 			return st, false
 		}
 		for i := range st {
-			if st[i].id != o.ents[i].id || st[i].rq != o.ents[i].rq {
+			if st[i] != o.ents[i] {
 				return st, false
 			}
 		}
@@ -173,8 +284,9 @@ func specApply(st []ent, o *cop) ([]ent, bool) {
 }
 
 // linearise: Wing-Gong search with memoisation. Returns (found, conclusive).
-func linearise(progs [][]*cop, budget int) (bool, bool, int) {
+func linearise(progs [][]*cop, budget int) (bool, bool, int, []*cop) {
 	pos := make([]int, len(progs))
+	var order []*cop
 	dead := map[string]bool{}
 	nodes := 0
 	key := func(st []ent) string {
@@ -215,32 +327,93 @@ func linearise(progs [][]*cop, budget int) (bool, bool, int) {
 		if dead[k] {
 			return false
 		}
+		// candidates = calls invoked before the earliest pending return; tried in the order in
+		// which they returned (with a lock the effect is usually near the end of the call)
+		var cand []int
 		for g, p := range progs {
-			if pos[g] >= len(p) {
-				continue
+			if pos[g] < len(p) && p[pos[g]].inv <= minRet {
+				cand = append(cand, g)
 			}
-			o := p[pos[g]]
-			if o.inv > minRet {
-				continue
-			}
+		}
+		sort.Slice(cand, func(i, j int) bool { return progs[cand[i]][pos[cand[i]]].ret < progs[cand[j]][pos[cand[j]]].ret })
+		for _, g := range cand {
+			o := progs[g][pos[g]]
 			st2, ok := specApply(st, o)
 			if !ok {
 				continue
 			}
 			pos[g]++
+			order = append(order, o)
 			if rec(st2) {
 				return true
 			}
+			order = order[:len(order)-1]
 			pos[g]--
 			if exhausted {
 				return false
+			}
+			if o.failed {
+				// a call that recorded nothing commutes with everything: if no order exists with
+				// it placed here, none exists at all from this state
+				break
 			}
 		}
 		dead[k] = true
 		return false
 	}
 	found := rec(nil)
-	return found, !exhausted, nodes
+	return found, !exhausted, nodes, order
+}
+
+// linLine renders a linearisation as the model op (`lin …`, replayed by the Lean model on a fresh
+// Logger with the same tags) and as the observations the implementation gave, in that order.
+func linLine(order []*cop) (string, string) {
+	var op, obs strings.Builder
+	op.WriteString("lin")
+	obs.WriteString("lin ")
+	for i, o := range order {
+		if i > 0 {
+			obs.WriteByte('|')
+		}
+		t := strconv.Itoa(o.tag)
+		switch o.kind {
+		case "req":
+			k := ":q:"
+			if o.fault {
+				k = ":Q:"
+			}
+			op.WriteString(" " + t + k + o.id)
+			switch {
+			case o.failed:
+				obs.WriteString("err msg")
+			case o.dup:
+				obs.WriteString("err dup")
+			default:
+				obs.WriteString("ok")
+			}
+		case "res":
+			k := ":s:"
+			if o.fault {
+				k = ":S:"
+			}
+			op.WriteString(" " + t + k + o.id)
+			if o.failed {
+				obs.WriteString("err msg")
+			} else {
+				obs.WriteString("ok")
+			}
+		case "export":
+			op.WriteString(" " + t + ":e")
+			obs.WriteString(showEnts(o.ents))
+		case "xreset":
+			op.WriteString(" " + t + ":x")
+			obs.WriteString(showEnts(o.ents))
+		case "reset":
+			op.WriteString(" " + t + ":r")
+			obs.WriteString("ok")
+		}
+	}
+	return op.String(), obs.String()
 }
 
 func dumpHistory(progs [][]*cop) string {
@@ -258,7 +431,13 @@ func dumpHistory(progs [][]*cop) string {
 	return s
 }
 
-// runConc: args = seed, goroutines, ops per goroutine, mode (own | shared | reset).
+// concBound: wall-clock bound of one concurrent run (generous: a run takes milliseconds; the
+// per-op watchdog of the runner is 30 s).
+const concBound = 20 * time.Second
+
+var concHangs int
+
+// runConc: args = seed, goroutines, ops per goroutine, mode (own | shared | reset | storm | hammer).
 func runConc(a []string) core.Result {
 	seed, _ := strconv.ParseUint(a[0], 10, 64)
 	G, _ := strconv.Atoi(a[1])
@@ -267,10 +446,20 @@ func runConc(a []string) core.Result {
 	if G < 1 || G > 64 || N < 1 || N > 200 {
 		return core.Result{Impl: "bad-op", SkipModel: true}
 	}
+	if concHangs >= 2 {
+		// two runs already left goroutines spinning: further concurrent runs on this tree would
+		// only compete with them for the processors
+		core.Count("conc:skipped-after-hangs")
+		return core.Result{Impl: "conc skipped", SkipModel: true}
+	}
 	r := core.NewRand(seed)
 	progs := make([][]*cop, G)
-	for g := range progs {
-		progs[g] = genProgram(r.Fork(), g, N, mode)
+	if mode == "storm" {
+		progs = stormSteps(r, G, N)
+	} else {
+		for g := range progs {
+			progs[g] = genProgram(r.Fork(), g, N, mode)
+		}
 	}
 	l := har.NewLogger()
 	var clk int64
@@ -292,25 +481,47 @@ func runConc(a []string) core.Result {
 					errs[g] = e
 					return
 				}
-				if (i+g)%3 == 0 {
+				if (i+g)%3 == 0 && mode != "hammer" {
 					runtime.Gosched()
 				}
 			}
 		}(g)
 	}
 	close(start)
-	wg.Wait()
+	// afterwards one goroutine looks at what is left: export, export-and-reset, export
+	tailProg := []*cop{{kind: "export", tag: 900000}, {kind: "xreset", tag: 900001}, {kind: "export", tag: 900002}}
+	tailErr := ""
+	finished := make(chan struct{})
+	go func() {
+		defer close(finished)
+		defer func() {
+			if x := recover(); x != nil {
+				tailErr = fmt.Sprintf("panic: %v", x)
+			}
+		}()
+		wg.Wait()
+		for _, o := range tailProg {
+			if e := execOp(l, o, &clk); e != "" {
+				tailErr = e
+				return
+			}
+		}
+	}()
+	select {
+	case <-finished:
+	case <-time.After(concBound):
+		// the calls are a few microseconds each (a gated step waits 250 ms at most): a run that is
+		// not over after concBound is stuck (a call spinning in a corrupted ring, or blocked behind it)
+		concHangs++
+		return core.Result{Impl: "conc fail", Fail: "the concurrent run did not finish within " + concBound.String() + ": some call never returned", Sig: "conc:hang", SkipModel: true}
+	}
 	for g, e := range errs {
 		if e != "" {
 			return core.Result{Impl: "conc fail", Fail: fmt.Sprintf("goroutine %d: %s", g, e), Sig: "conc:malformed", SkipModel: true}
 		}
 	}
-	// the main goroutine looks at what is left: export, export-and-reset, export
-	tailProg := []*cop{{kind: "export", tag: 900000}, {kind: "xreset", tag: 900001}, {kind: "export", tag: 900002}}
-	for _, o := range tailProg {
-		if e := execOp(l, o, &clk); e != "" {
-			return core.Result{Impl: "conc fail", Fail: e, Sig: "conc:malformed", SkipModel: true}
-		}
+	if tailErr != "" {
+		return core.Result{Impl: "conc fail", Fail: tailErr, Sig: "conc:malformed", SkipModel: true}
 	}
 	progs = append(progs, tailProg)
 
@@ -341,18 +552,53 @@ func runConc(a []string) core.Result {
 	if fail, sig := directChecks(progs, mode); fail != "" {
 		return core.Result{Impl: "conc fail", Fail: fail + dumpHistory(progs), Sig: sig, SkipModel: true}
 	}
-	found, conclusive, nodes := linearise(progs, 400000)
+	late, sameIDOverlap := 0, 0
+	seenGate := map[*gate]bool{}
+	for _, p := range progs[:G] {
+		for _, o := range p {
+			if o.g != nil && !seenGate[o.g] {
+				seenGate[o.g] = true
+				late += o.g.late
+			}
+		}
+	}
+	for g, p := range progs[:G] {
+		for _, o := range p {
+			if o.kind != "req" {
+				continue
+			}
+			for g2, p2 := range progs[:G] {
+				if g2 <= g {
+					continue
+				}
+				for _, o2 := range p2 {
+					if o2.kind == "req" && o2.id == o.id && o2.inv < o.ret && o.inv < o2.ret {
+						sameIDOverlap++
+					}
+				}
+			}
+		}
+	}
+	core.Stats["conc:gate-timeouts"] += late
+	core.Stats["conc:overlapping-request-pairs-same-id"] += sameIDOverlap
+	found, conclusive, nodes, order := linearise(progs, 600000)
 	core.Stats["conc:search-nodes"] += nodes
+	if os.Getenv("VERIF_C17_DEBUG") != "" {
+		fmt.Fprintf(os.Stderr, "c17 conc %v: nodes=%d found=%v conclusive=%v\n", a, nodes, found, conclusive)
+	}
 	switch {
 	case found:
 		core.Count("conc:linearised")
+		core.Count("conc:linearised-" + mode)
+		op, obs := linLine(order)
+		return core.Result{Impl: obs, ModelOp: op}
 	case !conclusive:
 		core.Count("conc:search-inconclusive")
 	default:
 		return core.Result{Impl: "conc fail", Fail: "no sequential order of the calls (respecting real-time order) explains the observed results" + dumpHistory(progs),
 			Sig: "conc:not-linearisable", SkipModel: true}
 	}
-	return core.Result{Impl: "conc ok", SkipModel: true}
+	return core.Result{Impl: "conc inconclusive", SkipModel: true}
 }
 
 func directChecks(progs [][]*cop, mode string) (string, string) {
@@ -364,7 +610,12 @@ func directChecks(progs [][]*cop, mode string) (string, string) {
 			}
 			last := map[int]int{}
 			inOne := map[int]bool{}
+			idOne := map[string]int{}
 			for _, e := range o.ents {
+				if prev, ok := idOne[e.id]; ok {
+					return fmt.Sprintf("one %s lists id %s twice (requests %d and %d): a duplicate request id was accepted", o.kind, e.id, prev, e.rq), "conc:id-listed-twice"
+				}
+				idOne[e.id] = e.rq
 				if inOne[e.rq] {
 					return fmt.Sprintf("request %d listed twice in one %s", e.rq, o.kind), "conc:entry-listed-twice"
 				}
@@ -396,10 +647,10 @@ func directChecks(progs [][]*cop, mode string) (string, string) {
 	}
 	for _, p := range progs {
 		for _, o := range p {
-			if o.kind == "req" && !o.dup && !seenX[o.tag] && !inFinal[o.tag] {
+			if o.kind == "req" && !o.dup && !o.failed && !seenX[o.tag] && !inFinal[o.tag] {
 				return fmt.Sprintf("accepted request %d (%s) was never returned and is not in the log", o.tag, o.id), "conc:entry-lost"
 			}
-			if o.kind == "req" && !o.dup && seenX[o.tag] && inFinal[o.tag] {
+			if o.kind == "req" && !o.dup && !o.failed && seenX[o.tag] && inFinal[o.tag] {
 				return fmt.Sprintf("request %d was returned by export-and-reset and is still in the log", o.tag), "conc:returned-and-kept"
 			}
 		}
